@@ -452,6 +452,7 @@ def qr_move_scp(asce, ctx, msg):
     if not nop:
         # nothing to move
         _send_response(asce, ctx, msg, 0, 0, 0, 0)
+        return
 
     with asce.ae.request_association(remote_ae) as assoc:
         failed = 0
